@@ -28,8 +28,8 @@ def run(ck):
         'parameter/popped key already in normal form). R18.2 UiForm::build custom widgets: flat_iter -> filter(is_custom_type) -> '
         'map(class) -> unique -> filter_map(from_class) -> collect. R18.3 CustomWidget::from_class field provenance. R18.4 '
         'make_doc_component_data: with_super(doc.type_name(), <root object type name>); base directory imported first; inside the import '
-        'loop `continue` only after an error push; is_qml_file is the only admission test in the directory scan. R18.5 the loop over '
-        'sources in generate_ui has no exit other than exhaustion.')
+        'loop `continue` only after an error push; is_qml_file is the only admission test in the directory scan. R18.5 in the loop over '
+        'sources in generate_ui a diagnosed source never ends the loop; nor does any other error (known finding).')
     ck.rule('R18.1', 'directory discovery terminates and registers every visited directory')
     ck.rule('R18.1k', 'directory module ids are built from normalised paths on both the writer and the reader side')
     ck.rule('R18.2', 'each custom widget class is listed once')
@@ -252,8 +252,26 @@ def run(ck):
             ck.ob('R18.5', 'per-source-loop', False, '', 'loop over sources calling generate_ui_file not found')
         else:
             exits = [n for n in walk(loop['body'], enter_closures=False) if n.get('k') in ('Try', 'Ret', 'Break')]
-            ck.ob('R18.5', 'no-early-exit-from-source-loop', not exits, B.loc(loop),
+            call = next(c for c in H.calls_in(loop['body']) if H.is_call_to(c, 'generate_ui_file'))
+            par = H.parents(gu).get(id(call)) or {}
+            # (a) a diagnosed source (a function of the inputs alone) never ends the loop
+            diag_exits = exits
+            if par.get('k') == 'Match' and par.get('e') is call:
+                diag_exits = []
+                for arm in par['arms']:
+                    pt = pp(arm['pat'])
+                    covers_diag = pt.startswith('Err(') and ('DiagnosticGenerated' in pt or re.match(r'^Err\((_|\w+)\)$', pt))
+                    if covers_diag:
+                        diag_exits += [n for n in walk(arm['body'], enter_closures=False) if n.get('k') in ('Try', 'Ret', 'Break')]
+                    if 'DiagnosticGenerated' in pt:
+                        break   # later arms cannot see this variant
+            ck.ob('R18.5', 'diagnosed-source-does-not-stop-the-loop', not diag_exits, B.loc(loop),
+                  'Err(DiagnosticGenerated) of one source is remembered and the remaining sources are still processed' if not diag_exits else
+                  'the loop over sources leaves early (%s) when a source has diagnostics: whether a good source is translated depends on its position relative to a failing one' % ', '.join(sorted(set(n['k'] for n in diag_exits))))
+            # (b) no other exit either
+            other = [n for n in exits if not any(n is d for d in diag_exits)]
+            ck.ob('R18.5', 'fatal-error-does-not-stop-the-loop', not exits, B.loc(loop),
                   'the loop over sources runs to exhaustion' if not exits else
-                  'the loop over sources leaves early (%s): whether a good source is translated depends on its position relative to a failing one' % ', '.join(sorted(set(n['k'] for n in exits))))
+                  'a non-diagnostic error of one source (unloadable file such as a bad suffix, I/O failure) still ends the loop (%s): sources named after it are not translated' % ', '.join(sorted(set(n['k'] for n in exits))))
             src = pp(loop['iter'])
             ck.ob('R18.5', 'every-source-visited', 'sources' in src and not re.search(r'\b(skip|take|rev|filter|step_by)\b', src), B.loc(loop), 'iterates %s' % src)
